@@ -104,7 +104,10 @@ class Ctx:
                   assumptions=self.assumptions, wall_s=round(time.time() - self.t0, 2),
                   violations=len(self.violations), notes=self.notes,
                   known_findings_hit=[s for s, _ in self.known_hits])
-        with open(os.path.join(EVID, self.pid + '.json'), 'w') as f:
+        evpath = os.path.join(EVID, self.pid + '.json')
+        if os.environ.get('VERIF_WORK_SUFFIX'):          # scratch run against a modified tree: keep the real evidence
+            evpath = os.path.join(self.work, 'evidence.json')
+        with open(evpath, 'w') as f:
             json.dump(ev, f, indent=1, default=str)
         for sig, what in self.known_hits:
             print('KNOWN-FINDING: property=%s %s [%s]' % (self.pid, what, sig))
